@@ -181,6 +181,8 @@ client_skip_proxy(struct archive_read_filter *self, int64_t request)
 			int64_t get, ask = request;
 			get = (self->archive->client.skipper)
 				(&self->archive->archive, self->data, ask);
+			if (get < 0)
+				return (get);
 			total += get;
 			if (get == 0 || get == request)
 				return (total);
